@@ -568,6 +568,21 @@ def run(res, tier, seed):
                         devs[0]["answer"] in ("reset", "epipe")
                     fails += ["%s: %s" % (who, f) for f in check_endpoint(
                         who, obs[who], opts, faulted == who, peer_closed)]
+                # the client finished its program (its close_notify is on
+                # the wire), the server read everything, and the one fault
+                # is a *send* of the server's after that: only the answer to
+                # the close_notify was lost.  That is an orderly close, not
+                # a truncation.
+                slog = obs["S"]["log"]
+                if devs[0]["kind"] == "send" and faulted == "S" and \
+                        obs["C"]["outcome"] == ("ok",) and \
+                        len(slog) >= 4 and slog[3][0] == "read" and \
+                        slog[3][1] == progs.MSG3 and \
+                        obs["S"]["outcome"][:2] == (
+                            "exc", "TLSAbruptCloseError"):
+                    fails.append("S: the peer's close_notify was received "
+                                 "and only the answer to it could not be "
+                                 "sent: reported as an abrupt close")
                 res.outcome((obs["C"]["outcome"][:2], obs["S"]["outcome"][:2],
                              len(obs["C"]["log"]), len(obs["S"]["log"])))
                 if total % 500 == 1:
